@@ -158,7 +158,7 @@ macro_rules! numtype {
 }
 
 pub fn run(cfg: &Cfg, rep: &mut Report) {
-    let n = cfg.n(200, 20_000_000, 400_000_000);
+    let n = cfg.n(200, 20_000_000, 1_200_000_000);
     run_cases(cfg, "numeric_value", n, rep, |rng, ctx| {
         match ctx.index % 14 {
             0 => numtype!(ctx, rng, u8, "u8", |a: &u8, b: &u8| a == b, |x: f64| x.abs().min(255.0) as u8),
